@@ -30,6 +30,22 @@ class AnalysisError(Exception):
     construct on a rule-relevant path, floor not met).  Never a violation."""
 
 
+def clone(n):
+    """structural copy of an AST (fields and positions only: parent links and other annotations are not followed)"""
+    if isinstance(n, ast.AST):
+        new = n.__class__()
+        for f in n._fields:
+            if hasattr(n, f):
+                setattr(new, f, clone(getattr(n, f)))
+        for a in ('lineno', 'col_offset', 'end_lineno', 'end_col_offset'):
+            if hasattr(n, a):
+                setattr(new, a, getattr(n, a))
+        return new
+    if isinstance(n, list):
+        return [clone(x) for x in n]
+    return n
+
+
 def U(node):
     return ast.unparse(node)
 
